@@ -190,8 +190,61 @@ func condFacts(cond ssa.Value, truth bool, iff *ssa.If) []Fact {
 	return []Fact{{Op: token.ILLEGAL, X: cond, Truth: truth, If: iff}}
 }
 
-// factsAt returns all atomic facts established by conditional edges that dominate block b.
-func factsAt(b *ssa.BasicBlock) []Fact {
+// factsAt returns all atomic facts established by conditional edges that dominate block b, closed under
+// "discriminant inversion": when a fact compares a phi of distinct constants with a constant and exactly one
+// incoming edge of the phi is compatible, the facts of that edge hold as well (the value was selected on it).
+func factsAt(b *ssa.BasicBlock) []Fact { return factsAtDepth(b, 0) }
+
+func factsAtDepth(b *ssa.BasicBlock, depth int) []Fact {
+	out := factsAtDirect(b)
+	if depth > 3 {
+		return out
+	}
+	done := map[*ssa.Phi]bool{}
+	for i := 0; i < len(out); i++ {
+		f := out[i]
+		if f.Y == nil || (f.Op != token.EQL && f.Op != token.NEQ) {
+			continue
+		}
+		phi, c := f.X, f.Y
+		if _, ok := phi.(*ssa.Phi); !ok {
+			phi, c = f.Y, f.X
+		}
+		p, ok := phi.(*ssa.Phi)
+		cc, ok2 := c.(*ssa.Const)
+		if !ok || !ok2 || cc.Value == nil || done[p] {
+			continue
+		}
+		pb := p.Block()
+		feasible := -1
+		n := 0
+		good := true
+		for j, e := range p.Edges {
+			ec, isC := e.(*ssa.Const)
+			if !isC || ec.Value == nil {
+				good = false
+				break
+			}
+			eq := constant.Compare(ec.Value, token.EQL, cc.Value)
+			if eq == (f.Op == token.EQL) {
+				feasible = j
+				n++
+			}
+		}
+		if !good || n != 1 || pb.Dominates(pb.Preds[feasible]) {
+			continue
+		}
+		done[p] = true
+		pred := pb.Preds[feasible]
+		out = append(out, factsAtDepth(pred, depth+1)...)
+		if iff, ok := pred.Instrs[len(pred.Instrs)-1].(*ssa.If); ok && pred.Succs[0] != pred.Succs[1] {
+			out = append(out, condFacts(iff.Cond, pred.Succs[0] == pb, iff)...)
+		}
+	}
+	return out
+}
+
+func factsAtDirect(b *ssa.BasicBlock) []Fact {
 	var out []Fact
 	fn := b.Parent()
 	for _, blk := range fn.Blocks {
@@ -220,6 +273,8 @@ type IG struct {
 	idx    map[ssa.Instruction]int
 	succ   [][]int
 	first  map[*ssa.BasicBlock]int
+	// cache for the value-sensitive search (ssax_vs.go)
+	relevant map[ssa.Value]bool
 }
 
 func buildIG(fn *ssa.Function) *IG {
@@ -252,6 +307,14 @@ func buildIG(fn *ssa.Function) *IG {
 // reachFrom returns the set of instructions reachable from the given start nodes (inclusive)
 // without entering a node for which stop returns true (stop nodes are marked reached but not expanded).
 func (g *IG) reachFrom(starts []int, stop func(ssa.Instruction) bool) []bool {
+	if r, ok := g.reachVS(starts, stop, nil); ok {
+		return r
+	}
+	return g.reachPlain(starts, stop)
+}
+
+// reachPlain is reachFrom without value sensitivity (used when the state budget of reachVS is exhausted).
+func (g *IG) reachPlain(starts []int, stop func(ssa.Instruction) bool) []bool {
 	seen := make([]bool, len(g.instrs))
 	var stack []int
 	for _, s := range starts {
@@ -278,6 +341,9 @@ func (g *IG) reachFrom(starts []int, stop func(ssa.Instruction) bool) []bool {
 
 // reachFromE is reachFrom with an edge filter: the k-th successor edge of a block terminator is followed only if edgeOK allows it.
 func (g *IG) reachFromE(starts []int, stop func(ssa.Instruction) bool, edgeOK func(term ssa.Instruction, k int) bool) []bool {
+	if r, ok := g.reachVS(starts, stop, edgeOK); ok {
+		return r
+	}
 	seen := make([]bool, len(g.instrs))
 	var stack []int
 	for _, s := range starts {
